@@ -16,45 +16,44 @@ Qed.
 Lemma td_in_families_close2 : forall c, In c td_families_close2 -> td_check_family c = true.
 Proof. intros c H. exact (td_forallb_family _ _ c td_families_ok_close2 H). Qed.
 
-(* all families in which the safety clauses (b)-(e) are checked *)
+Lemma td_in_families_t1 : forall c, In c td_families_t1 -> td_check_family c = true.
+Proof. intros c H. exact (td_forallb_family _ _ c td_families_t1_ok H). Qed.
+
+(* all families: 45 (phase x injection x caller), 7 with a further Close(), 5 with T1 exhaustion *)
 Definition td_all_families : list td_cfg := td_families ++ td_families_close2 ++ td_families_t1.
+
+Lemma td_in_all_families : forall c, In c td_all_families -> td_check_family c = true.
+Proof.
+  intros c Hc. unfold td_all_families in Hc. apply in_app_or in Hc. destruct Hc as [Hc | Hc].
+  - exact (td_in_families c Hc).
+  - apply in_app_or in Hc. destruct Hc as [Hc | Hc]; [exact (td_in_families_close2 c Hc) | exact (td_in_families_t1 c Hc)].
+Qed.
 
 Lemma td_safe_everywhere : forall c s, In c td_all_families -> td_reach c s ->
   td_chk_wac s = true /\ td_chk_chan s = true /\ td_chk_abort s = true /\ td_chk_close2 s = true /\
   td_chk_shut s = true.
 Proof.
-  intros c s Hc Hr. unfold td_all_families in Hc. apply in_app_or in Hc. destruct Hc as [Hc | Hc].
-  - destruct (td_check_family_sound c (td_in_families c Hc)) as [Hs _].
-    destruct (td_chk_state_split c s (Hs s Hr)) as [_ H]. exact H.
-  - apply in_app_or in Hc. destruct Hc as [Hc | Hc].
-    + destruct (td_check_family_sound c (td_in_families_close2 c Hc)) as [Hs _].
-      destruct (td_chk_state_split c s (Hs s Hr)) as [_ H]. exact H.
-    + pose proof (td_forallb_family _ _ c td_families_t1_safe Hc) as Hf. cbv beta in Hf.
-      pose proof (td_check_family_safe_sound c _ Hf s Hr) as H. unfold td_chk_state_t1 in H.
-      do 4 (apply andb_true_iff in H; destruct H as [H ?]). repeat split; assumption.
+  intros c s Hc Hr.
+  destruct (td_check_family_sound c (td_in_all_families c Hc)) as [Hs _].
+  destruct (td_chk_state_split c s (Hs s Hr)) as [_ H]. exact H.
 Qed.
 
 (* (a) maximal run ends are finished: no deadlocked configuration is reachable *)
-Lemma td_all_terminate : forall c s, In c (td_families ++ td_families_close2) -> td_reach c s ->
+Lemma td_all_terminate : forall c s, In c td_all_families -> td_reach c s ->
   td_steps c s = [] -> td_done s = true.
 Proof.
   intros c s Hc Hr Hnil.
-  assert (Hchk : td_check_family c = true).
-  { apply in_app_or in Hc. destruct Hc; [apply td_in_families | apply td_in_families_close2]; assumption. }
-  destruct (td_check_family_sound c Hchk) as [Hs _].
+  destruct (td_check_family_sound c (td_in_all_families c Hc)) as [Hs _].
   destruct (td_chk_state_split c s (Hs s Hr)) as [Hd _].
   unfold td_chk_dead, td_final in Hd. rewrite Hnil in Hd. exact Hd.
 Qed.
 
-(* (a) progress: from every reachable state a finished state is reachable (in td_families the only
-   injection is the one of the family, it happens at most once, so after it no further external event is
-   used to get there) *)
-Lemma td_progress : forall c s, In c (td_families ++ td_families_close2) -> td_reach c s -> td_can_finish c s.
+(* (a) progress: from every reachable state a finished state is reachable (the injection of a family happens
+   at most once, so after it no further injection is used to get there) *)
+Lemma td_progress : forall c s, In c td_all_families -> td_reach c s -> td_can_finish c s.
 Proof.
   intros c s Hc Hr.
-  assert (Hchk : td_check_family c = true).
-  { apply in_app_or in Hc. destruct Hc; [apply td_in_families | apply td_in_families_close2]; assumption. }
-  destruct (td_check_family_sound c Hchk) as [_ Hl]. exact (Hl s Hr).
+  destruct (td_check_family_sound c (td_in_all_families c Hc)) as [_ Hl]. exact (Hl s Hr).
 Qed.
 
 (* finished means: every goroutine automaton is at its end, timers are closed, the lock is free, every
@@ -184,45 +183,27 @@ Proof.
   unfold td_chk_shut in H. split; intro E; rewrite E in H; [exact H | apply negb_true_iff; exact H].
 Qed.
 
-(* T1 exhaustion after fix aeda016: with a Close() or a failing conn.Read everything holds *)
-Lemma td_t1_ok : forall c s, In c td_families_t1_ok -> td_reach c s ->
-  (td_steps c s = [] -> td_done s = true) /\ td_can_finish c s.
+(* the schedule that wedged the association before c7c80cb (D31) is harmless now: the state it leads to is
+   reachable, Abort() is not blocked there, and a finished state is reachable from it *)
+Lemma td_old_race_harmless :
+  exists s, td_reach td_cfg_t1_abort s /\
+            td_follow td_cfg_t1_abort (td_init td_cfg_t1_abort) td_old_race_schedule = Some s /\
+            td_cw s = TdCwOk /\ td_tf s = TdTfDone /\ td_lk s = false /\ td_ab s = TdAbFlag /\
+            td_abort_caller s <> [] /\ td_can_finish td_cfg_t1_abort s.
 Proof.
-  intros c s Hc Hr.
-  destruct (td_check_family_sound c (td_forallb_family _ _ c td_families_t1_ok_chk Hc)) as [Hs Hl].
-  split; [|exact (Hl s Hr)]. intro Hnil.
-  destruct (td_chk_state_split c s (Hs s Hr)) as [Hd _].
-  unfold td_chk_dead, td_final in Hd. rewrite Hnil in Hd. exact Hd.
-Qed.
-
-(* residual refutation: the T1 failure callback racing with the completion of the handshake *)
-Lemma td_t1_stuck_abort : exists c s, In c td_families_t1 /\ td_reach c s /\
-  td_steps c s = [] /\ td_done s = false /\ td_ab s = TdAbFlag /\ td_tf s = TdTfBlocked /\ td_cw s = TdCwOk /\
-  td_st s = TdStEst.
-Proof.
-  destruct td_witness_t1_abort_ok as [s [Hf [Hcw [Htf [_ [Hab [Hst [Hfin Hd]]]]]]]].
-  exists td_cfg_t1_abort, s. split; [right; left; reflexivity|].
-  split; [exact (td_follow_reach _ _ _ Hf)|].
-  split; [|auto 10]. unfold td_final in Hfin. destruct (td_steps td_cfg_t1_abort s); [reflexivity | discriminate Hfin].
-Qed.
-
-Lemma td_t1_stuck_wfail : exists c s, In c td_families_t1 /\ td_reach c s /\ td_injected c s = true /\
-  td_steps c s = [] /\ td_done s = false /\ td_tf s = TdTfBlocked /\ td_cw s = TdCwOk.
-Proof.
-  destruct td_witness_t1_wfail_ok as [s [Hf [Hcw [Htf [_ [_ [Hinj [Hfin Hd]]]]]]]].
-  exists td_cfg_t1_wfail, s. split; [right; right; right; left; reflexivity|].
-  split; [exact (td_follow_reach _ _ _ Hf)|].
-  split; [exact Hinj|].
-  split; [|auto]. unfold td_final in Hfin. destruct (td_steps td_cfg_t1_wfail s); [reflexivity | discriminate Hfin].
+  destruct td_old_race_now_harmless as [s [Hf [Hcw [Htf [Hlk [Hab [_ Hne]]]]]]].
+  assert (Hr : td_reach td_cfg_t1_abort s) by exact (td_follow_reach _ _ _ Hf).
+  exists s. repeat split; try assumption.
+  apply td_progress; [|exact Hr]. unfold td_all_families. apply in_or_app. right. apply in_or_app. right.
+  right. left. reflexivity.
 Qed.
 
 (* the outcome sets the comparator reads from the model cover every reachable maximal run end *)
-Lemma td_outcomes_complete : forall c s, In c (td_families ++ td_families_close2) -> td_reach c s ->
+Lemma td_outcomes_complete : forall c s, In c td_all_families -> td_reach c s ->
   td_steps c s = [] -> In (td_outcome_of s) (td_final_outcomes c).
 Proof.
   intros c s Hc Hr Hnil.
-  assert (Hchk : td_check_family c = true).
-  { apply in_app_or in Hc. destruct Hc; [apply td_in_families | apply td_in_families_close2]; assumption. }
+  pose proof (td_in_all_families c Hc) as Hchk.
   apply td_final_outcomes_complete; [|exact Hr | unfold td_final; rewrite Hnil; reflexivity].
   unfold td_check_family in Hchk. unfold td_check_family_safe.
   destruct (td_reach_list c); [|discriminate Hchk]. cbv zeta in Hchk.
